@@ -1,6 +1,7 @@
 package main
 
 import (
+	"bytes"
 	"fmt"
 	"reflect"
 	"sort"
@@ -183,6 +184,11 @@ func (v *Val) Build(order int) interface{} {
 		return time.Unix(v.I, 0).UTC()
 	case "bytes":
 		return []byte(v.S)
+	case "buffer": // *bytes.Buffer: a value whose own methods (WriteTo, Read, Next) consume it
+		return bytes.NewBufferString(v.S)
+	case "func": // a Go callable
+		text := v.S
+		return func() string { return text }
 	case "holder": // *Holder; S = title, I != 0: embedded pointer set (ID = I)
 		h := &Holder{Title: v.S}
 		if v.I != 0 {
